@@ -1,4 +1,6 @@
 import Qhttp.Model.LocalAuth
+import Qhttp.Lemmas.C17Keys
+import Qhttp.Lemmas.C17Auth
 /-
   C17 — local token authentication: the token is always advertised, only it is accepted.
 -/
@@ -45,5 +47,424 @@ def walk : List Op → (alive : Bool) → (hdrName : Bytes) → (keys : List Byt
     | _ => false
 
 def holds (ops : List Op) (obs : List Obs) : Bool := walk ops false [] [] obs
+
+
+/-! ## Theorems (proof agent C17)
+
+  Everything below is about the FROZEN model `LocalAuth` and the FROZEN predicate `holds`.
+  Helper lemmas: `Qhttp/Lemmas/C17Keys.lean` (`sortKeys`), `Qhttp/Lemmas/C17Auth.lean`
+  (projections of `step`, the invariant `LInv`, the history specification `Ghost`/`ghost`).
+  Nothing is assumed about the operation sequence: every theorem quantifies over ALL `List Op`
+  (any interleaving of umask / pre / create / setData / setHeaderName / req / destroy, any umask
+  value, any mode of a pre-existing file).  -/
+open Qhttp.C17L
+
+/-! ### `C17.walk` is simulated by `step` -/
+
+/-- the body of `C17.walk` on a non-empty operation list (Lean cannot generate equation lemmas
+    for `walk`, so it is unfolded through this copy, equal by `rfl`) -/
+def walkBody (op : Op) (ops : List Op) (alive : Bool) (hdrName : Bytes) (keys : List Bytes) (obs : List Obs) : Bool :=
+    let alive' := match op with | .create => true | .destroy => false | _ => alive
+    let hdr' := match op with
+      | .setHeaderName n => if alive then n else hdrName
+      | .create => if alive then hdrName else lit ['X','-','A','u','t','h','-','T','o','k','e','n']
+      | _ => hdrName
+    let keys' := match op with
+      | .setData ks => if alive then sortKeys (TOKEN :: ks) else keys
+      | .create => if alive then keys else [TOKEN]
+      | _ => keys
+    let (okReq, obs) :=
+      match op, obs with
+      | .req hdr, .misc 11 [v] :: rest =>
+        if alive then
+          (v == (match hdr with | some (n, tv) => if lower n == lower hdrName && tv == TokVal.exact then (1 : UInt8) else 0 | none => (0 : UInt8)), rest)
+        else (false, rest)
+      | .req _, o => (!alive, o)
+      | _, o => (true, o)
+    match obs with
+    | .misc 10 d :: rest =>
+      okReq &&
+      (if alive' then
+         (match d with
+          | 1 :: 6 :: 0 :: 0 :: 1 :: ks => ks == joinWith [44] keys'
+          | _ => false)
+       else
+         (match op with | .destroy => d == [] || !alive | _ => true)) &&
+      C17.walk ops alive' hdr' keys' rest
+    | _ => false
+
+theorem walk_cons (op : Op) (ops : List Op) (a : Bool) (h : Bytes) (k : List Bytes) (obs : List Obs) :
+    C17.walk (op :: ops) a h k obs = walkBody op ops a h k obs := rfl
+
+theorem walk_nil (a : Bool) (h : Bytes) (k : List Bytes) (obs : List Obs) :
+    C17.walk [] a h k obs = obs.isEmpty := rfl
+
+/-- relation between the model state and the three accumulators of `C17.walk` -/
+def Rel (s : St) (a : Bool) (h : Bytes) (k : List Bytes) : Prop :=
+  a = s.alive ∧ (s.alive = true → h = s.hdrName ∧ s.file = some (goodFile k))
+
+theorem walk_step (s : St) (op : Op) (a : Bool) (h : Bytes) (k : List Bytes) (hR : Rel s a h k) :
+    ∃ a' h' k', Rel (step s op) a' h' k' ∧
+      ∀ ops rest, C17.walk (op :: ops) a h k (verdictOut s op ++ [snap (step s op)] ++ rest)
+        = C17.walk ops a' h' k' rest := by
+  obtain ⟨ha, hR⟩ := hR
+  subst ha
+  cases hal : s.alive with
+  | false =>
+    obtain ⟨d, hd⟩ := snap_misc (step s op)
+    cases op with
+    | create =>
+      refine ⟨true, DEFHDR, [TOKEN], ⟨by simp [step_alive], fun _ => ⟨by simp [step_hdrName, hal], by simp [step_file, hal]⟩⟩, ?_⟩
+      intro ops rest
+      have hs := snap_good (step s .create) [TOKEN] (by simp [step_file, hal])
+      rw [hs]
+      rw [walk_cons]; unfold walkBody; simp [verdictOut, DEFHDR]
+    | req hdr =>
+      refine ⟨false, h, k, ⟨by simp [step_alive, hal], by simp [step_alive, hal]⟩, ?_⟩
+      intro ops rest
+      rw [hd]; rw [walk_cons]; unfold walkBody; simp [verdictOut, hal]
+    | destroy =>
+      refine ⟨false, h, k, ⟨by simp [step_alive], by simp [step_alive]⟩, ?_⟩
+      intro ops rest
+      rw [hd]; rw [walk_cons]; unfold walkBody; simp [verdictOut]
+    | umask m =>
+      refine ⟨false, h, k, ⟨by simp [step_alive, hal], by simp [step_alive, hal]⟩, ?_⟩
+      intro ops rest
+      rw [hd]; rw [walk_cons]; unfold walkBody; simp [verdictOut]
+    | pre m =>
+      refine ⟨false, h, k, ⟨by simp [step_alive, hal], by simp [step_alive, hal]⟩, ?_⟩
+      intro ops rest
+      rw [hd]; rw [walk_cons]; unfold walkBody; simp [verdictOut]
+    | setData ks =>
+      refine ⟨false, h, k, ⟨by simp [step_alive, hal], by simp [step_alive, hal]⟩, ?_⟩
+      intro ops rest
+      rw [hd]; rw [walk_cons]; unfold walkBody; simp [verdictOut]
+    | setHeaderName n =>
+      refine ⟨false, h, k, ⟨by simp [step_alive, hal], by simp [step_alive, hal]⟩, ?_⟩
+      intro ops rest
+      rw [hd]; rw [walk_cons]; unfold walkBody; simp [verdictOut]
+  | true =>
+    obtain ⟨hh, hf⟩ := hR hal
+    subst hh
+    cases op with
+    | create =>
+      refine ⟨true, s.hdrName, k, ⟨by simp [step_alive], fun _ => ⟨by simp [step_hdrName, hal], by simp [step_file, hal, hf]⟩⟩, ?_⟩
+      intro ops rest
+      rw [snap_good (step s .create) k (by simp [step_file, hal, hf])]
+      rw [walk_cons]; unfold walkBody; simp [verdictOut]
+    | req hdr =>
+      refine ⟨true, s.hdrName, k, ⟨by simp [step_alive, hal], fun _ => ⟨by simp [step_hdrName], by simp [step_file, hf]⟩⟩, ?_⟩
+      intro ops rest
+      rw [snap_good (step s (.req hdr)) k (by simp [step_file, hf])]
+      cases hdr with
+      | none => rw [walk_cons]; unfold walkBody; simp [verdictOut, hal, admits]
+      | some p =>
+        obtain ⟨n, tv⟩ := p
+        rw [walk_cons]; unfold walkBody; simp [verdictOut, hal, admits]
+    | destroy =>
+      refine ⟨false, s.hdrName, k, ⟨by simp [step_alive], by simp [step_alive]⟩, ?_⟩
+      intro ops rest
+      rw [snap_none (step s .destroy) (by simp [step_file, hal])]
+      rw [walk_cons]; unfold walkBody; simp [verdictOut]
+    | umask m =>
+      refine ⟨true, s.hdrName, k, ⟨by simp [step_alive, hal], fun _ => ⟨by simp [step_hdrName], by simp [step_file, hf]⟩⟩, ?_⟩
+      intro ops rest
+      rw [snap_good (step s (.umask m)) k (by simp [step_file, hf])]
+      rw [walk_cons]; unfold walkBody; simp [verdictOut]
+    | pre m =>
+      refine ⟨true, s.hdrName, k, ⟨by simp [step_alive, hal], fun _ => ⟨by simp [step_hdrName], by simp [step_file, hf, hal]⟩⟩, ?_⟩
+      intro ops rest
+      rw [snap_good (step s (.pre m)) k (by simp [step_file, hf, hal])]
+      rw [walk_cons]; unfold walkBody; simp [verdictOut]
+    | setData ks =>
+      refine ⟨true, s.hdrName, sortKeys (TOKEN :: ks), ⟨by simp [step_alive, hal], fun _ => ⟨by simp [step_hdrName], by simp [step_file, hal]⟩⟩, ?_⟩
+      intro ops rest
+      rw [snap_good (step s (.setData ks)) (sortKeys (TOKEN :: ks)) (by simp [step_file, hal])]
+      rw [walk_cons]; unfold walkBody; simp [verdictOut]
+    | setHeaderName n =>
+      refine ⟨true, n, k, ⟨by simp [step_alive, hal], fun _ => ⟨by simp [step_hdrName, hal], by simp [step_file, hf]⟩⟩, ?_⟩
+      intro ops rest
+      rw [snap_good (step s (.setHeaderName n)) k (by simp [step_file, hf])]
+      rw [walk_cons]; unfold walkBody; simp [verdictOut]
+
+theorem walk_emit (ops : List Op) (s : St) (a : Bool) (h : Bytes) (k : List Bytes) (hR : Rel s a h k) :
+    C17.walk ops a h k (emit s ops) = true := by
+  induction ops generalizing s a h k with
+  | nil => simp [walk_nil, emit]
+  | cons op ops ih =>
+    obtain ⟨a', h', k', hR', hw⟩ := walk_step s op a h k hR
+    rw [emit, hw ops (emit (step s op) ops)]
+    exact ih _ _ _ _ hR'
+
+
+/-! ### 5. the main theorem: the driver's predicate holds on every run of the model -/
+
+/-- `holds` is true on the log of EVERY operation sequence; no well-formedness hypothesis is
+    needed (`pre` while alive, `req` before `create`, double `create`, `destroy` without
+    instance, ... are all no-ops of the model that `walk` treats the same way). -/
+theorem holds_run (ops : List Op) : C17.holds ops (LocalAuth.run ops).log = true := by
+  rw [run_log]
+  exact walk_emit ops {} false [] [] ⟨rfl, by intro h; cases h⟩
+
+/-- the same from any state related to the accumulators of `walk` (e.g. mid-run) -/
+theorem walk_from (s : St) (ops : List Op) (a : Bool) (h : Bytes) (k : List Bytes) (hR : Rel s a h k) :
+    ∃ out, (ops.foldl step s).log = s.log ++ out ∧ walk ops a h k out = true :=
+  ⟨emit s ops, foldl_log s ops, walk_emit ops s a h k hR⟩
+
+/-! ### 1. `file_inv`: the advertised file while an instance is alive -/
+
+theorem LInv_init' : LInv {} := LInv_init
+
+theorem LInv_step' {s : St} (h : LInv s) (op : Op) : LInv (step s op) := LInv_step h op
+
+/-- after every operation of every run (each prefix of a run is a run): if an instance is alive,
+    the file exists with mode 0600, a `token` member, and keys `sortKeys (TOKEN :: ks)` -/
+theorem LInv_run (ops : List Op) : LInv (run ops) := LInv_foldl LInv_init ops
+
+/-- `file_inv`, history form: the keys are `token` plus the keys of the last `setData` since the
+    last effective `create` (`(ghost ops).data`, `[]` if none), whatever umask / pre-existing file -/
+theorem file_inv (ops : List Op) (h : (run ops).alive = true) :
+    (run ops).file =
+      some { mode := 0o600, keys := sortKeys (TOKEN :: (ghost ops).data), hasToken := true } := by
+  have ag := Agree_run ops
+  exact ag.file (ag.alive ▸ h)
+
+/-- `file_inv`, explicit form: `pre` leaves no instance alive, then `create`, then any operations
+    except `destroy` (further `create`/`pre` are no-ops) -/
+theorem file_inv_since_create (pre post : List Op) (hpre : (run pre).alive = false)
+    (hpost : ∀ op ∈ post, op ≠ Op.destroy) :
+    (run (pre ++ Op.create :: post)).alive = true ∧
+    (run (pre ++ Op.create :: post)).file =
+      some { mode := 0o600, keys := sortKeys (TOKEN :: lastData [] post), hasToken := true } ∧
+    (run (pre ++ Op.create :: post)).hdrName = lastHdr DEFHDR post := by
+  have ag := Agree_run (pre ++ Op.create :: post)
+  have agp := Agree_run pre
+  have hg : ghost (pre ++ Op.create :: post) =
+      { alive := true, hdr := lastHdr DEFHDR post, data := lastData [] post, removed := false } := by
+    have h1 : (ghost pre).alive = false := agp.alive ▸ hpre
+    have h2 : gstep (ghost pre) Op.create = { alive := true, hdr := DEFHDR, data := [], removed := false } := by
+      simp [gstep, h1]
+    simp only [ghost, List.foldl_append, List.foldl_cons]
+    have := gstep_alive_tail (gstep (List.foldl gstep {} pre) Op.create) (by rw [show List.foldl gstep {} pre = ghost pre from rfl, h2]) post hpost
+    rw [this, show List.foldl gstep {} pre = ghost pre from rfl, h2]
+  have ha : (ghost (pre ++ Op.create :: post)).alive = true := by rw [hg]
+  refine ⟨ag.alive.trans ha, ?_, ?_⟩
+  · have := ag.file ha; rw [hg] at this; exact this
+  · have := ag.hdr ha; rw [hg] at this; exact this
+
+/-- the key list of the file is strictly increasing (so duplicate-free), contains `token`, and
+    besides `token` exactly the application's keys -/
+theorem file_keys (ops : List Op) (h : (run ops).alive = true) :
+    ∃ f, (run ops).file = some f ∧ f.mode = 0o600 ∧ f.hasToken = true ∧
+      Sorted f.keys ∧ f.keys.Nodup ∧ ∀ k, k ∈ f.keys ↔ k = TOKEN ∨ k ∈ (ghost ops).data := by
+  refine ⟨_, file_inv ops h, rfl, rfl, sortKeys_sorted _, sortKeys_nodup _, ?_⟩
+  intro k; simp [mem_sortKeys]
+
+/-- every operation appends (a verdict, for a request on a live instance, and) one snapshot -/
+theorem log_snoc (ops : List Op) (op : Op) :
+    (run (ops ++ [op])).log = (run ops).log ++ verdictOut (run ops) op ++ [snap (run (ops ++ [op]))] := by
+  rw [run_snoc, step_log]
+
+/-- snapshot form of `file_inv`: the snapshot of a state with a live instance -/
+theorem snap_alive (ops : List Op) (h : (run ops).alive = true) :
+    snap (run ops) =
+      Obs.misc 10 (1 :: 6 :: 0 :: 0 :: 1 :: joinWith [44] (sortKeys (TOKEN :: (ghost ops).data))) :=
+  snap_good _ _ (file_inv ops h)
+
+/-- every `.misc 10 d` logged while alive has the shape `1 :: 6 :: 0 :: 0 :: 1 :: keys`: the log
+    of a run split at an arbitrary operation `op` after which an instance is alive -/
+theorem snapshot_shape (pre : List Op) (op : Op) (post : List Op)
+    (h : (run (pre ++ [op])).alive = true) :
+    (run (pre ++ op :: post)).log =
+      (run pre).log ++ verdictOut (run pre) op ++
+      [Obs.misc 10 (1 :: 6 :: 0 :: 0 :: 1 :: joinWith [44] (sortKeys (TOKEN :: (ghost (pre ++ [op])).data)))] ++
+      emit (run (pre ++ [op])) post := by
+  have : pre ++ op :: post = (pre ++ [op]) ++ post := by simp
+  rw [this, run_append, foldl_log, log_snoc, snap_alive _ h]
+
+/-! ### 2. `admit_iff`: only the exact token under the configured header is admitted -/
+
+/-- for every state (reachable or not): admitted iff the header whose name equals the configured
+    one up to ASCII/Latin-1 case carries exactly the current token -/
+theorem admit_iff (s : St) (hdr : Option (Bytes × TokVal)) :
+    admits s hdr = true ↔ ∃ n, hdr = some (n, TokVal.exact) ∧ lower n = lower s.hdrName := by
+  cases hdr with
+  | none => simp [admits]
+  | some p =>
+    obtain ⟨n, v⟩ := p
+    simp only [admits, Bool.and_eq_true, beq_iff_eq, Option.some.injEq, Prod.mk.injEq]
+    constructor
+    · rintro ⟨h1, h2⟩; exact ⟨n, ⟨rfl, h2⟩, h1⟩
+    · rintro ⟨m, ⟨h1, h2⟩, h3⟩; subst h1; exact ⟨h3, h2⟩
+
+theorem missing_header_refused (s : St) : admits s none = false := rfl
+
+/-- upper-cased, truncated, braces stripped, NUL suffix, BOM prefix, a previous instance's token,
+    any other bytes: refused under every header name -/
+theorem wrong_value_refused (s : St) (n : Bytes) {v : TokVal} (hv : v ≠ TokVal.exact) :
+    admits s (some (n, v)) = false := by
+  simp [admits, hv]
+
+theorem upper_refused (s : St) (n : Bytes) : admits s (some (n, .upper)) = false := by simp [admits]
+theorem dropLast_refused (s : St) (n : Bytes) : admits s (some (n, .dropLast)) = false := by simp [admits]
+theorem braceless_refused (s : St) (n : Bytes) : admits s (some (n, .braceless)) = false := by simp [admits]
+theorem nulSuffix_refused (s : St) (n : Bytes) : admits s (some (n, .nulSuffix)) = false := by simp [admits]
+theorem bomPrefix_refused (s : St) (n : Bytes) : admits s (some (n, .bomPrefix)) = false := by simp [admits]
+/-- the token of an earlier instance is refused.  (That the earlier instance's UUID string really
+    differs from the current one is QUuid's property: an ASSUMPTION of the model, observed by the
+    harness, not proved here; the model identifies a token with its instance number `inst`.) -/
+theorem previous_refused (s : St) (n : Bytes) : admits s (some (n, .previous)) = false := by simp [admits]
+theorem other_refused (s : St) (n b : Bytes) : admits s (some (n, .other b)) = false := by simp [admits]
+
+/-- the right token under a different header name is refused -/
+theorem wrong_name_refused (s : St) (n : Bytes) (v : TokVal) (hn : lower n ≠ lower s.hdrName) :
+    admits s (some (n, v)) = false := by
+  simp [admits, hn]
+
+theorem right_header_admitted (s : St) (n : Bytes) (hn : lower n = lower s.hdrName) :
+    admits s (some (n, .exact)) = true := by
+  simp [admits, hn]
+
+/-- the configured header name is the argument of the last `setHeaderName` since the last
+    effective `create` (`X-Auth-Token` if none) -/
+theorem hdrName_spec (ops : List Op) (h : (run ops).alive = true) :
+    (run ops).hdrName = (ghost ops).hdr := by
+  have ag := Agree_run ops
+  exact ag.hdr (ag.alive ▸ h)
+
+/-- `admit_iff` on reachable states, in terms of the API history -/
+theorem admit_iff_run (ops : List Op) (h : (run ops).alive = true) (hdr : Option (Bytes × TokVal)) :
+    admits (run ops) hdr = true ↔ ∃ n, hdr = some (n, TokVal.exact) ∧ lower n = lower (ghost ops).hdr := by
+  rw [admit_iff, hdrName_spec ops h]
+
+/-- what a request on a live instance logs: its verdict, then the (unchanged) snapshot -/
+theorem req_logged (ops : List Op) (h : (run ops).alive = true) (hdr : Option (Bytes × TokVal)) :
+    (run (ops ++ [Op.req hdr])).log =
+      (run ops).log ++ [Obs.misc 11 [if admits (run ops) hdr then 1 else 0], snap (run ops)] := by
+  rw [log_snoc]
+  have : snap (run (ops ++ [Op.req hdr])) = snap (run ops) := by
+    simp [snap, run_snoc, step_file]
+  simp [verdictOut, h, this]
+
+/-- a request changes nothing but the log -/
+theorem req_pure (s : St) (hdr : Option (Bytes × TokVal)) :
+    (step s (.req hdr)).alive = s.alive ∧ (step s (.req hdr)).file = s.file ∧
+    (step s (.req hdr)).hdrName = s.hdrName ∧ (step s (.req hdr)).inst = s.inst := by
+  simp [step_alive, step_file, step_hdrName, step_inst]
+
+/-! ### 3. `removed`: destruction removes the advertised file -/
+
+theorem destroy_dead (s : St) : (step s .destroy).alive = false := by simp [step_alive]
+
+theorem destroy_removes (s : St) (h : s.alive = true) : (step s .destroy).file = none := by
+  simp [step_file, h]
+
+/-- history form: once an instance was destroyed and neither `create` nor `pre` took effect
+    since, there is no file and no instance -/
+theorem removed (ops : List Op) (h : (ghost ops).removed = true) :
+    (run ops).file = none ∧ (run ops).alive = false := by
+  have ag := Agree_run ops
+  exact ⟨(ag.removed h).1, ag.alive.trans (ag.removed h).2⟩
+
+/-- explicit form: destroy a live instance, then anything but `create` / `pre` -/
+theorem removed_after_destroy (pre post : List Op) (hpre : (run pre).alive = true)
+    (hpost : ∀ op ∈ post, op ≠ Op.create ∧ ∀ m, op ≠ Op.pre m) :
+    (run (pre ++ Op.destroy :: post)).file = none ∧
+    (run (pre ++ Op.destroy :: post)).alive = false := by
+  apply removed
+  have agp := Agree_run pre
+  have h1 : (ghost pre).alive = true := agp.alive ▸ hpre
+  simp only [ghost, List.foldl_append, List.foldl_cons]
+  have h2 : (gstep (List.foldl gstep {} pre) Op.destroy).alive = false ∧
+            (gstep (List.foldl gstep {} pre) Op.destroy).removed = true := by
+    rw [show List.foldl gstep {} pre = ghost pre from rfl]
+    simp [gstep, h1]
+  rw [gstep_dead_tail _ h2.1 post hpost]
+  exact h2.2
+
+/-! ### 4. `inst_fresh`: every effective `create` draws a new token identity -/
+
+theorem create_increments (s : St) (h : s.alive = false) : (step s .create).inst = s.inst + 1 := by
+  simp [step_inst, h]
+
+theorem inst_only_create (s : St) {op : Op} (h : op ≠ Op.create) : (step s op).inst = s.inst := by
+  rw [step_inst]; cases op <;> simp_all
+
+theorem inst_mono_step (s : St) (op : Op) : s.inst ≤ (step s op).inst := by
+  rw [step_inst]; cases op <;> simp; split <;> omega
+
+theorem inst_mono_foldl (s : St) (ops : List Op) : s.inst ≤ (ops.foldl step s).inst := by
+  induction ops generalizing s with
+  | nil => exact Nat.le_refl _
+  | cons op ops ih => exact Nat.le_trans (inst_mono_step s op) (ih _)
+
+theorem inst_mono_run (a c : List Op) : (run a).inst ≤ (run (a ++ c)).inst := by
+  rw [run_append]; exact inst_mono_foldl _ _
+
+/-- two instances created one after the other (both `create`s take effect) have different token
+    identities; hence `TokVal.previous` never denotes the current token (`previous_refused`).
+    Distinctness of the actual UUID strings is QUuid's property and stays an assumption. -/
+theorem inst_fresh (a c : List Op) (h1 : (run a).alive = false)
+    (h2 : (run (a ++ Op.create :: c)).alive = false) :
+    (run (a ++ [Op.create])).inst < (run (a ++ Op.create :: c ++ [Op.create])).inst := by
+  have e1 : (run (a ++ [Op.create])).inst = (run a).inst + 1 := by
+    rw [run_snoc]; exact create_increments _ h1
+  have e2 : (run (a ++ Op.create :: c ++ [Op.create])).inst = (run (a ++ Op.create :: c)).inst + 1 := by
+    rw [run_snoc]; exact create_increments _ h2
+  have e3 : (run (a ++ [Op.create])).inst ≤ (run (a ++ Op.create :: c)).inst := by
+    have := inst_mono_run (a ++ [Op.create]) c
+    simpa using this
+  omega
+
+/-! ### 6. non-vacuity: a concrete history evaluated in the kernel -/
+
+def HX_MY : Bytes := lit ['X','-','M','y']
+def hx_my : Bytes := lit ['x','-','m','y']
+def PORT : Bytes := lit ['p','o','r','t']
+
+/-- umask 000, pre 666, create, setData [port], setHeaderName X-My, req (X-My, exact),
+    req (X-Auth-Token, exact), req (x-my, upper), destroy -/
+def demoOps : List Op :=
+  [.umask 0o000, .pre 0o666, .create, .setData [PORT], .setHeaderName HX_MY,
+   .req (some (HX_MY, .exact)), .req (some (DEFHDR, .exact)), .req (some (hx_my, .upper)), .destroy]
+
+def liveSnap : Obs :=
+  Obs.misc 10 ([1, 6, 0, 0, 1] ++ lit ['p','o','r','t',',','t','o','k','e','n'])
+
+example : (run demoOps).log =
+    [ Obs.misc 10 [],                                            -- umask: no file yet
+      Obs.misc 10 ([1, 6, 6, 6, 0] ++ lit ['j','u','n','k']),    -- pre: foreign file, mode 666
+      Obs.misc 10 ([1, 6, 0, 0, 1] ++ lit ['t','o','k','e','n']),-- create: 0600, token advertised
+      liveSnap,                                                  -- setData [port]
+      liveSnap,                                                  -- setHeaderName
+      Obs.misc 11 [1], liveSnap,                                 -- right name, exact token
+      Obs.misc 11 [0], liveSnap,                                 -- exact token under the old name
+      Obs.misc 11 [0], liveSnap,                                 -- right name (other case), upper-cased token
+      Obs.misc 10 [] ] := by decide                      -- destroy: file gone
+
+example : C17.holds demoOps (run demoOps).log = true := by decide
+
+/-- the predicate is not vacuous: it rejects a log claiming the old header name was admitted -/
+example : C17.holds demoOps
+    ((run demoOps).log.set 7 (Obs.misc 11 [1])) = false := by decide
+
+/-- ... and one where the file had mode 0644 after `setData` -/
+example : C17.holds demoOps
+    ((run demoOps).log.set 3 (Obs.misc 10 ([1, 6, 4, 4, 1] ++ lit ['p','o','r','t',',','t','o','k','e','n']))) = false := by
+  decide
+
+/-- ... and one where the file survived `destroy` -/
+example : C17.holds demoOps ((run demoOps).log.set 11 liveSnap) = false := by decide
+
+/-- degenerate histories (`req` before `create`, `pre` while alive, double `create`, `destroy`
+    twice) are covered by `holds_run` as well; a concrete one -/
+example : C17.holds [.req none, .destroy, .create, .pre 0o777, .create, .req none, .destroy, .destroy]
+    (run [.req none, .destroy, .create, .pre 0o777, .create, .req none, .destroy, .destroy]).log = true := by
+  decide
+
+example : (ghost demoOps) = { alive := false, hdr := HX_MY, data := [PORT], removed := true } := by
+  decide
+
+example : (run (demoOps ++ [.create])).inst = 2 := by decide
 
 end Qhttp.C17
